@@ -483,6 +483,19 @@ class CompGen:
                 vx, vy = self.view(x, rx), self.view(y, ry)
                 self.seqs[p] = {"len": L, "sup": True, "nucs": vx + vy, "segs": [vx, vy]}
                 self.order.append(p)
+                if rng.random() < 0.35:
+                    # a port whose member is itself a super-sequence (`toe = a b`, `inp = toe c`): the port proper is `q`
+                    z = self.add_base(length=rng.choice([0, 0, 1, 2, 3]), plain=plain)
+                    q = self.nm("q")
+                    rp, rz = rng.random() < 0.3, rng.random() < 0.3
+                    vp, vz = self.view(p, rp), self.view(z, rz)
+                    its = [({"t": "ref", "name": p, "star": rp}, vp), ({"t": "ref", "name": z, "star": rz}, vz)]
+                    if rng.random() < 0.4:
+                        its.reverse()
+                    self.stmts.append({"k": "seq", "name": q, "items": [i for i, _ in its], "len": None})
+                    self.seqs[q] = {"len": len(vp) + len(vz), "sup": True, "nucs": its[0][1] + its[1][1], "segs": [its[0][1], its[1][1]]}
+                    self.order.append(q)
+                    p = q
             ports.append(p)
         todo = ["sup"] * rng.randint(0, max(1, self.size // 3)) + ["strand"] * rng.randint(1, max(1, self.size // 3))
         rng.shuffle(todo)
